@@ -1044,6 +1044,7 @@ class Exec:
         out = []
         j0 = z3.IntVal(0)
         st.ghost['_j'] = j0
+        st.ghost[f'_j{ordn}'] = j0
         if it is not None:
             st.ghost['_n'] = it.n
         pre = st.copy()
@@ -1054,6 +1055,7 @@ class Exec:
         h = st.copy()
         j = self.fresh_int('j')
         h.ghost['_j'] = j
+        h.ghost[f'_j{ordn}'] = j
         for nm in sorted(names | muts | set(extra_havoc)):
             if nm in h.vars:
                 h.vars[nm] = self.models.havoc(self, h, h.vars[nm], nm, nm in muts)
@@ -1094,6 +1096,7 @@ class Exec:
             if 'body_end' in spec:
                 spec['body_end'](self, s1, o1, j)
             if o1.kind in ('normal', 'continue'):
+                s1.ghost['_j'] = s1.ghost[f'_j{ordn}'] = j + 1
                 for lbl, g in inv(self, s1, j + 1):
                     self.oblige(s1, 'inv-keep', f'loop{ordn}.{lbl}', g, s, assume=False)
             elif o1.kind == 'break':
